@@ -127,6 +127,8 @@ type App struct {
 	mutex          sync.Mutex
 	// Amount of registered routes
 	routesCount uint32
+	// Number of registration calls (Use, Get, Add ...) so far
+	registerCount uint32
 	// Amount of registered handlers
 	handlersCount uint32
 	// contains the information if the route stack has been changed to build the optimized tree
